@@ -1148,6 +1148,21 @@ class StubsStringGenerator:
 
             if qname.replace(".", "/") != self._get_module_id():
                 self.module_imports.add(qname)
+        elif not self.currently_creating_reexport_data:
+            # A class of this module that is reexported from a shorter path is created there, not in this module
+            class_ = self.api.classes.get(import_qname.replace(".", "/"))
+            module_path_length = len(self._get_module_id(get_actual_id=True).split("/"))
+            if class_ is not None and any(
+                len(reexport_module.id.split("/")) < module_path_length for reexport_module in class_.reexported_by
+            ):
+                shortest_qname, _ = _get_shortest_public_reexport(
+                    reexport_map=self.api.reexport_map,
+                    name=class_.name,
+                    qname=import_qname,
+                    is_module=False,
+                )
+                if shortest_qname:
+                    self.module_imports.add(f"{shortest_qname}.{class_.name}")
 
     def _create_todo_msg(self, indentations: str) -> str:
         if not self._current_todo_msgs:
